@@ -14,4 +14,5 @@ open Verif.Props.C06
 #print axioms keep_ws_never_removed
 #print axioms comments_only_removed
 #print axioms xml_wellformed_partial
+#print axioms xml_nesting
 #print axioms xml_wellformed_counterexample
